@@ -109,25 +109,46 @@ func ruleLoopEffects(c *Ctx, rule string) {
 	}
 }
 
-// frozen exceptions of C03.2: lock -> reason
-func (c *Ctx) shortLockExceptions() map[string]string {
+// frozen exceptions of C03.2: lock -> (allowed effect predicate, reason). An exception names the one
+// construct it covers: any other blocking effect under the same lock is still a violation.
+type lockException struct {
+	allow  func(kind, fn string) bool
+	reason string
+}
+
+func (c *Ctx) shortLockExceptions() map[string]lockException {
 	a := c.W.Anchors()
-	out := map[string]string{}
+	out := map[string]lockException{}
 	if a.SS != nil {
 		// the per-stream write mutex of the server stream
 		for _, s := range c.senderSendSites() {
 			if rn := recvNamed(s.Parent()); rn != nil && rn.Obj() == a.SS.Obj() {
 				for _, l := range perStreamLocks(c.W.Locks().MustAt(s), a.SS) {
-					out[l] = "held across flow-control waits and carrier sends by design; safe for the loop because the finishing function cancels the stream context before taking it (C07.7) and a holder blocked on the carrier is released by the peer's loop, which never waits on us (C03.1, conforming peer)"
+					out[l] = lockException{
+						allow: func(kind, fn string) bool {
+							// flow-control wait and carrier sends of the stream's own frames
+							return kind == "carrier-send" || (kind == "select-blocking" && strings.Contains(fn, "Sender).send"))
+						},
+						reason: "held across the flow-control wait and carrier sends by design; safe for the loop because the finishing function cancels the stream context before taking it (C07.7) and a holder blocked on the carrier is released by the peer's loop, which never waits on us (C03.1, conforming peer)",
+					}
 				}
 			}
 		}
 	}
 	r := c.receivers()
 	if r.plain != nil {
-		out[r.plain.Obj().Name()+".ingestMu"] = "plain (revision-zero) receiver: blocking hand-off by design, exempted by C03"
+		pn := r.plain.Obj().Name()
+		out[pn+".ingestMu"] = lockException{
+			allow:  func(kind, fn string) bool { return kind == "select-blocking" && strings.Contains(fn, pn) && strings.HasSuffix(fn, ".accept") },
+			reason: "plain (revision-zero) receiver: blocking hand-off by design, exempted by C03",
+		}
 	}
-	out["ReverseTunnelServer.mu"] = "held across CloseSend only in Stop (shutdown path); the loop takes it only to read the state"
+	out["ReverseTunnelServer.mu"] = lockException{
+		allow: func(kind, fn string) bool {
+			return kind == "carrier-closesend" && (fn == "(*ReverseTunnelServer).Stop" || strings.HasPrefix(fn, "(*threadSafe"))
+		},
+		reason: "held across CloseSend only in Stop (shutdown path, bounded by the transport); the loop takes it only to read the state",
+	}
 	return out
 }
 
@@ -173,7 +194,7 @@ func ruleShortLocks(c *Ctx, rule string) {
 			c.exception(rule, "lock "+l, "-", "carrier wrapper mutex: exists to serialise the carrier operation itself; the loop takes only the receive side for its own Recv")
 			continue
 		}
-		var bad []string
+		var bad, excused []string
 		for _, fn := range w.Funcs {
 			if isGenericTemplate(fn) {
 				continue
@@ -184,6 +205,10 @@ func ruleShortLocks(c *Ctx, rule string) {
 				}
 				may := lf.MayAt(e.Instr)
 				if may[l] || may[l+":R"] {
+					if ex, has := exc[l]; has && ex.allow(e.Kind, w.Short(fn)) {
+						excused = append(excused, fmt.Sprintf("%s in %s at %s", e.Kind, w.Short(fn), w.At(e.Instr)))
+						continue
+					}
 					if e.Kind == "cond-wait" && strings.HasSuffix(e.Detail, "") {
 						// cond.Wait releases its own lock while waiting
 						if cl := c.condLock(); cl == l {
@@ -195,12 +220,12 @@ func ruleShortLocks(c *Ctx, rule string) {
 			}
 		}
 		key := "lock " + l + " (taken in-loop: " + loopLocks[l] + ")"
-		if len(bad) == 0 {
+		if len(bad) == 0 && len(excused) == 0 {
 			c.ok(rule, "lock "+l, "-", "taken in-loop ("+loopLocks[l]+"); no blocking effect anywhere while it may be held")
 			continue
 		}
-		if reason, ok := exc[l]; ok {
-			c.exception(rule, "lock "+l, "-", reason+"; effects while held: "+strings.Join(bad, "; "))
+		if len(bad) == 0 {
+			c.exception(rule, "lock "+l, "-", exc[l].reason+"; excused effects while held: "+strings.Join(excused, "; "))
 			continue
 		}
 		if l == "tunnelChannel.mu" && allPrefixed(bad, "callback in (*tunnelChannel).allocateStream") {
@@ -710,4 +735,31 @@ func ruleShutdownGate(c *Ctx, rule string) {
 		}
 	}
 	c.check(good, rule, "refusal with Unavailable", w.At(pred), "isClosing() edge returns (true, Unavailable)", "no stream-level Unavailable return on the shutting-down edge")
+	// every OTHER stream-level rejection is decided only when not shutting down: while draining, every new RPC
+	// (also one that would be rejected for another reason) must get Unavailable, the retry-elsewhere signal
+	for _, cr := range c.createReturns() {
+		if cr.class != "stream-level" {
+			continue
+		}
+		onTrue, onFalse := false, false
+		for _, f := range boolFactsAt(cr.ret) {
+			if f.V == ssa.Value(pred) {
+				if f.True {
+					onTrue = true
+				} else {
+					onFalse = true
+				}
+			}
+		}
+		if onTrue {
+			continue
+		}
+		what := "rejection"
+		if call, ok := stripConv(cr.err).(*ssa.Call); ok && len(call.Call.Args) > 1 {
+			if k, ok := call.Call.Args[1].(*ssa.Const); ok && k.Value != nil {
+				what = "rejection " + k.Value.ExactString()
+			}
+		}
+		c.check(onFalse, rule, fmt.Sprintf("%s decided only when not shutting down", what), w.At(cr.ret), "dominated by !isClosing()", "this stream-level rejection can be returned while the server is shutting down (it is not dominated by the false edge of the shutting-down predicate): during drain such an RPC gets this permanent error instead of Unavailable")
+	}
 }
